@@ -93,6 +93,9 @@ def eval_case(c):
     kam = True if any_incomp else bool(c['sub'] % 3)
     cnt = {'solves': 0, 'surface_conditions_checked': 0, 'interfaces_checked': 0, 'interface_quantities_checked': 0}
     cnt['solves'] += 1
+    if True:
+        # call history: the same request at another degree immediately before (nothing may be carried over between calls)
+        solve(body, c['freq'], l=(l + 1 if l < 6 else 2), solve_for=sf_call, kamata=kam, rtol=1e-7, nondim=c['nd'], max_steps=300000)
     s = solve(body, c['freq'], l=l, solve_for=sf_call, kamata=kam, rtol=1e-9, nondim=c['nd'], max_steps=300000, keep_result=True)
     desc = '/'.join(('S' if t == 'solid' else 'L') + ('s' if st else 'd') + ('i' if inc else 'c') for t, st, inc in c['stack'])
     if not s['success']:
